@@ -102,7 +102,27 @@ def is_good_stub(phase, waveform=None, ret_all_checks=False, phase_edge=None, mo
     return SBool(z3.And(*vals))
 
 
-def _mk_general(return_good, with_mask):
+WRAPPED = z3.Function('wrapped_phase', I, I, R)
+
+
+class _UtilsShim:
+    """emd.utils.wrap_phase by contract (range [0, 2 pi); congruence is proved under C09): returns the array the harness has prepared, so that
+    the criteria are stated about the very array the routine goes on to work with"""
+    @staticmethod
+    def wrap_phase(x):
+        c = core.C()
+        WA = c.ghost.get('WA')
+        if WA is None:
+            raise core.Unsupported('wrap_phase called in a unit that assumes a wrapped phase')
+        i = z3.Int('wpi')
+        # (the whole [N x 1] array, or its one column)
+        at = (lambda q: x.elem(q, z3.IntVal(0))) if x.ndim == 2 else (lambda q: x.elem(q))
+        c.oblige('wrap_phase:called-on-the-callers-phase', z3.And(x.shape_e[0] == N, z3.BoolVal(x.ndim in (1, 2)),
+                                                                 z3.Implies(z3.And(0 <= i, i < N), at(i) == c.ghost['P'](i))), 'pre')
+        return WA if x.ndim == 2 else WA[:, 0]
+
+
+def _mk_general(return_good, with_mask, unwrapped=False):
     def mk(c):
         ph, P = vec('phase', N)
         s = z3.Int('s')
@@ -110,7 +130,18 @@ def _mk_general(return_good, with_mask):
             c.assume(ax)
         c.assume(N >= 1)
         c.assume(EDGE > 0)
-        c.assume(z3.ForAll([s], z3.And(0 <= P(s), P(s) <= 2 * PI), patterns=[P(s)]))
+        if unwrapped:
+            # an UNWRAPPED phase: some sample lies beyond 2 pi, the routine re-wraps the array first (wrap_phase by contract) and every
+            # criterion below is about the re-wrapped array
+            s0 = z3.Int('beyond_2pi_at')
+            c.assume(z3.And(0 <= s0, s0 < N, P(s0) > 2 * PI))
+            q = z3.Int('wq')
+            c.assume(z3.ForAll([s, q], z3.And(0 <= WRAPPED(s, q), WRAPPED(s, q) < 2 * PI), patterns=[WRAPPED(s, q)]))
+            c.ghost['WA'] = SArr((N, z3.IntVal(1)), lambda a_, b_: WRAPPED(a_, b_), 'f')
+            c.ghost['P'] = P
+            P_in, P = P, (lambda i_: WRAPPED(i_, z3.IntVal(0)))
+        else:
+            c.assume(z3.ForAll([s], z3.And(0 <= P(s), P(s) <= 2 * PI), patterns=[P(s)]))
         kw = dict(return_good=return_good, phase_step=SReal(STEP), phase_edge=SReal(EDGE))
         M = None
         if with_mask:
@@ -118,7 +149,7 @@ def _mk_general(return_good, with_mask):
             kw['mask'] = mk_
         # spec boundaries: the same np.where term the code computes (np.where is deterministic)
         with core.SpecMode():
-            ph2 = ph[:, None]
+            ph2 = c.ghost['WA'] if unwrapped else ph[:, None]
             W = npshim.where(npshim.abs(npshim.diff(ph2[:, 0])) > SReal(STEP))[0]
         Kw = W.shape_e[0]
         Bs = lambda k: z3.If(k == 0, z3.IntVal(0), z3.If(k <= Kw, W.elem(k - 1) + 1, N))
@@ -186,6 +217,11 @@ def units(tier):
                               {'kind': 'array', 'name': 'phase', 'shape': ['N']}, {'kind': 'array', 'name': 'mask', 'shape': ['N']}])
         u.bound_scalars = [('N', 1)]
         U.append(u)
+    for rg, wm in ((True, False), (True, True)):
+        U.append(Unit('get_cycle_vector[return_good=%s,mask=%s,unwrapped phase]' % (rg, 'given' if wm else 'None'), 'emd/cycles.py', 'get_cycle_vector',
+                      _mk_general(rg, wm, unwrapped=True), _post_general, loops={1: {'inv': _inner_general}}, module=EC,
+                      ns={'is_good': is_good_stub, 'utils': _UtilsShim},
+                      inline=[('emd/support.py', 'ensure_2d', {}), ('emd/support.py', 'ensure_equal_dims', {})]))
     U.append(container_unit())
     U.append(slice_cache_unit())
     U += multi_units()
